@@ -81,3 +81,19 @@ Theorem C19_stored_info_stable :
   h_info (fst (p_run I V bytes scales_of check_info encode decode st ops)) = h_info st.
 Proof. exact run_no_new_info. Qed.
 Print Assumptions C19_stored_info_stable.
+
+(* Repeating a data-writing step on its own output, whatever the destination
+   held before the first run (an older generation, another volume): every valid
+   position reads the same after the second run as after the first. *)
+From NGS Require Import PioAnyStore.
+Theorem C19_steps_repeatable_any_store :
+  forall (chunk bytes : Type) (encode : list N -> chunk -> outcome bytes)
+         (decode : list N -> bytes -> triple -> outcome chunk) (shape_of : chunk -> triple),
+  (forall k ch b, encode k ch = Ok b -> decode k b (shape_of ch) = Ok ch) ->
+  forall scales (st0 : store bytes) ops k c,
+  Forall (well_shaped chunk shape_of) ops ->
+  check_valid scales k c = Ok tt ->
+  read_chunk chunk bytes decode scales (fst (run chunk bytes encode decode scales st0 (ops ++ ops))) k c
+  = read_chunk chunk bytes decode scales (fst (run chunk bytes encode decode scales st0 ops)) k c.
+Proof. exact repeat_any_store. Qed.
+Print Assumptions C19_steps_repeatable_any_store.
